@@ -19,34 +19,38 @@ def _flat(x):
             yield i
 
 
-def inc(x):
+def _kw(kw):
+    return sum(v for v in kw.values() if isinstance(v, (int, float)))
+
+
+def inc(x, **kw):
     _jitter(x)
-    return x + 1
+    return x + 1 + _kw(kw)
 
 
-def dbl(x):
+def dbl(x, **kw):
     _jitter(x)
-    return x * 2
+    return x * 2 + _kw(kw)
 
 
-def tsum(x):
+def tsum(x, **kw):
     _jitter(x)
-    return sum(_flat(x))
+    return sum(_flat(x)) + _kw(kw)
 
 
-def add(a, b):
+def add(a, b, **kw):
     _jitter(a)
-    return a + b
+    return a + b + _kw(kw)
 
 
-def acc_add(s, x):
+def acc_add(s, x, **kw):
     _jitter(x)
-    return s + (tsum(x) if isinstance(x, (tuple, list)) else x)
+    return s + (tsum(x) if isinstance(x, (tuple, list)) else x) + _kw(kw)
 
 
-def acc_rs(s, x):
+def acc_rs(s, x, **kw):
     _jitter(x)
-    v = tsum(x) if isinstance(x, (tuple, list)) else x
+    v = (tsum(x) if isinstance(x, (tuple, list)) else x) + _kw(kw)
     return s + v, s * 2 + v
 
 
